@@ -65,6 +65,14 @@ func genC10(t *rapid.T) Script {
 			if rapid.Bool().Draw(t, "chunked") {
 				a.Chunks = []int{1 + stats.Pick(t, 9, "chunk")}
 			}
+			if stats.Pct(t, "filler") < 12 {
+				// more data than the scanner buffer holds after the last ID of this connection
+				a.Filler = stats.From(t, []int{130, 260, 300, 600}, "fillern")
+				a.Stream = stats.B(strings.TrimSuffix(string(a.Stream), "data: unfinished") + "\n")
+				if a.Chunks != nil {
+					a.Chunks = []int{512 + a.Chunks[0]}
+				}
+			}
 		}
 		sc.Attempts = append(sc.Attempts, a)
 	}
@@ -76,8 +84,8 @@ func genC10(t *rapid.T) Script {
 }
 
 // dispatched returns what the reference says a Connection dispatches for one attempt.
-func dispatched(a Attempt, lastID string) (events []oracle.Event, newLastID string, truncatedID, nulID, emptyReset bool) {
-	ref := oracle.Interpret([]byte(a.Stream), lastID, oracle.Connection)
+func dispatched(a Attempt, lastID string) (events []oracle.Event, newLastID string, truncatedID, nulID, emptyReset, filler bool) {
+	ref := oracle.Interpret([]byte(a.body()), lastID, oracle.Connection)
 	newLastID = lastID
 	for _, b := range ref.Blocks {
 		if b.Event < 0 {
@@ -94,6 +102,9 @@ func dispatched(a Attempt, lastID string) (events []oracle.Event, newLastID stri
 		}
 		newLastID = ev.LastEventID
 	}
+	if a.Filler > 0 {
+		filler = true
+	}
 	if strings.Contains(string(a.Stream), "\x00") {
 		nulID = true
 	}
@@ -101,7 +112,7 @@ func dispatched(a Attempt, lastID string) (events []oracle.Event, newLastID stri
 		// was there an id line after the last dispatch?
 		if len(ref.Blocks) > 0 {
 			last := ref.Blocks[len(ref.Blocks)-1]
-			if !last.Terminated && strings.Contains(string(a.Stream[last.Start:]), "id") {
+			if !last.Terminated && strings.Contains(a.body()[last.Start:], "id") {
 				truncatedID = true
 			}
 		}
@@ -171,7 +182,10 @@ walk:
 			break
 		}
 		if a.Kind == "stream" {
-			evs, nl, trunc, nul, empty := dispatched(a, lastID)
+			evs, nl, trunc, nul, empty, filler := dispatched(a, lastID)
+			if filler {
+				v.Class("more-than-a-buffer-after-the-last-id")
+			}
 			wantEvents = append(wantEvents, evs...)
 			if sawNonEmpty && (a.End == "err" || trunc) {
 				laterFailure = true
